@@ -969,7 +969,7 @@ func (c *Case) genStruct(t *rapid.T, depth int, label string) *Node {
 				tagParts = append(tagParts, fmt.Sprintf("maxLen=%d", s.Max))
 			}
 		}
-		anonymous := false
+		anonymous, embAKeys, inlinedOmitEmpty := false, false, false
 		fieldKind := rapid.IntRange(0, 18).Draw(t, fl+".kind")
 		if fieldKind == 18 {
 			fieldKind = 21
@@ -1125,9 +1125,20 @@ func (c *Case) genStruct(t *rapid.T, depth int, label string) *Node {
 			f.N = c.nEmbA()
 			f.GoName = "EmbA"
 			anonymous = true
-			if rapid.Bool().Draw(t, fl+".inl") {
+			embAKeys = true
+			switch rapid.IntRange(0, 3).Draw(t, fl+".inl") {
+			case 0:
 				f.Inlined = true // a key on an inlined field is legal: the map form then nests the struct under that key
-			} else {
+			case 1:
+				// inlined and omitempty: an all-zero member is left out of the map form
+				f.Inlined, inlinedOmitEmpty = true, true
+			case 2:
+				// a named field that holds a pointer to the struct, inlined and optional: nil is left out of the map form
+				f.N = &Node{Kind: KPtr, T: tof((*EmbA)(nil)), Elem: c.nEmbA()}
+				f.GoName = goName
+				anonymous = false
+				f.Inlined, f.Optional = true, true
+			default:
 				f.Embedded = true
 				key = ""
 			}
@@ -1139,20 +1150,20 @@ func (c *Case) genStruct(t *rapid.T, depth int, label string) *Node {
 				f.N = leaf(KBigInt, tof(big.Int{}), "") // the number held as a value instead of through a pointer
 			}
 		}
-		if anonymous {
+		if embAKeys {
 			dup := false
 			for _, sf := range sfs {
-				if sf.Name == "EmbA" {
+				if anonymous && sf.Name == "EmbA" {
 					dup = true
 				}
 			}
-			if dup || usedKeys["x"] || usedKeys["s"] {
-				// only one embedded EmbA per struct
+			if dup || ((key == "" || !f.Inlined) && (usedKeys["x"] || usedKeys["s"])) {
+				// only one member that brings the keys of EmbA into the struct
 				f.N = leaf(KUint8, numTypes[KUint8], "")
 				f.GoName = goName
-				f.Inlined, f.Embedded = false, false
-				anonymous = false
-			} else {
+				f.Inlined, f.Embedded, f.Optional = false, false, false
+				anonymous, inlinedOmitEmpty = false, false
+			} else if key == "" || !f.Inlined {
 				usedKeys["x"], usedKeys["s"] = true, true
 			}
 		}
@@ -1161,6 +1172,10 @@ func (c *Case) genStruct(t *rapid.T, depth int, label string) *Node {
 		}
 		if f.Inlined {
 			tagParts = append(tagParts, "inlined")
+		}
+		if inlinedOmitEmpty {
+			f.OmitEmpty = true
+			tagParts = append(tagParts, "omitempty")
 		}
 		if !f.Optional && !f.Inlined && !f.Embedded && rapid.IntRange(0, 5).Draw(t, fl+".omitempty") == 0 {
 			f.OmitEmpty = true
